@@ -917,7 +917,7 @@ PROPS = {
                        'TLWE wrapper against that contract; TGswParams constructor fields; loop-free arithmetic lemma for the layout grid.',
         'assumptions': STD_ASSUME + [
             'AVX2 inline-assembly path of tGswTorus32PolynomialDecompH (optimised builds) is not seen; "vectorised and scalar builds give identical digits" is not decided',
-            'layouts outside the enumerated grid are not covered (quick: 4 layouts for the function contract, 8 for lemma/constructor; thorough: all valid layouts for lemma/constructor, l <= 6 and (8,4) for the function contract; (16,2) times out after 30 min)',
+            'layouts outside the enumerated grid are not covered (quick: 5 layouts for the function contract, 8 for lemma/constructor; thorough: all valid layouts for lemma/constructor, l <= 6 and (8,4) for the function contract; (16,2) times out after 30 min)',
         ],
         'trusted': [],
     },
@@ -926,7 +926,8 @@ PROPS = {
         'level': 'proof',
         'explanation': 'Arithmetic of key switching decided completely (all 2^32 mask values, all valid (t,basebit) symbolic): round-to-nearest digits, '
                        'centred truncation error <= 2^-(t*basebit+1), carries and wrap; row messages sum to s_i times the rounded value; lweKeySwitch wiring. '
-                       'That the real translate loop subtracts exactly the rows those digits select, through the real 3-level table, is a bounded stand-in in n.',
+                       'That the real translate loop subtracts exactly the rows those digits select is proved for every n (arbitrary mask, watched index), and so is the 3-level '
+                       'table the constructor builds; only the two together on one concrete table is a bounded stand-in.',
         'assumptions': STD_ASSUME + [
             'lweKeySwitchTranslate_fromArray, unbounded in n (loop contracts on both loops): (a) ARBITRARY mask, one watched index g_i (symbolic): ks[g_i] points to its own well-formed row block, every other ks[i] to a second one (__CPROVER_array_set gives every index a valid row without a quantifier): in iteration g_i exactly the rows of the non-zero round-to-nearest digits of a[g_i] are subtracted, once each, no other iteration touches them, every other access stays inside its block; (a\') all coordinates equal: exactly NZ(A) subtractions per index, n*NZ(A) in total; (b) the 3-level table built by the constructor, unbounded in n: second-level entry p points to element p*base of the contiguous array, first-level entry i to second-level entry i*t; (c) constructor and translate together on one concrete table: bounded stand-in (n in {1,2,3}(,5)), labelled bounded; layouts with t > 15 only in (c)',
             'phase conclusion phase(out) = phase(in) + sum_i s_i(a_i - abar_i) - sum noise(rows used): lemma + induction over n, the induction is not machine-checked',
@@ -986,7 +987,7 @@ PROPS = {
                        'monomial algebra lemma over the postcondition index/sign function (X^a*X^b = X^(a+b mod 2N), X^N = -1). Schoolbook and Karatsuba '
                        'products: bounded stand-ins against the ring definition (never counted as proved).',
         'assumptions': STD_ASSUME + [
-            'memory safety and frames of the schoolbook kernels, of the recursive Karatsuba kernel (every size) and of its three wrappers (R of 2N-1 entries, 16N bytes of scratch): proved unbounded; their VALUES: ',
+            'memory safety and frames of the schoolbook kernels, of the recursive Karatsuba kernel (every size) and of its three wrappers (R of 2N-1 entries, 16N bytes of scratch): proved unbounded; their VALUES are only bounded stand-ins, next two items',
             'schoolbook product: bounded stand-in, N in {1,2,4,8,16}(,32,64), coefficients fully symbolic (INT32_MIN included), z3',
             'Karatsuba (plain / accumulate / subtract): bounded stand-in at N = 16 on symbolic basis pairs (X^i, c*X^j); the extension to all inputs by bilinearity of the routine is not machine-checked; fully symbolic Karatsuba is out of reach of every installed solver',
             'monomial algebra lemma: N <= 2^16 (quick) / 2^20 (thorough)',
@@ -1020,9 +1021,9 @@ PROPS = {
                        'destructors and the real template macro.',
         'assumptions': STD_ASSUME + [
             'reads of uninitialised memory: CBMC has no definedness tracking; not decided',
-            'thread-exit destructors of the thread_local FFT processors, the assembly kernels, serialization, garbage collector (std::vector): not reachable by the C front end',
-            'key-switch table: bounded in n (see C08)',
-            'FFT-domain objects (LagrangeHalfCPolynomial, TGswSampleFFT, LweBootstrappingKeyFFT construction): not under contract',
+            'thread-exit destructors of the thread_local FFT processors, the assembly kernels, the text layer of serialization, garbage collector (std::vector): not reachable by the C front end (the binary readers / writers are under contract here)',
+            'key-switch table: constructor loops unbounded in n (see C08); constructor + destructor + use on one concrete table bounded',
+            'FFT-domain objects: TLweSampleFFT / TGswSampleFFT life cycle and LweBootstrappingKeyFFT ownership (bounded shape) are under contract; the LagrangeHalfCPolynomial objects themselves (FFT processors) are allocation monitors',
         ],
         'trusted': [],
     },
@@ -1032,10 +1033,11 @@ PROPS = {
         'explanation': 'LWE and gate API: decoding grid (every phase within the decoding radius of mu/Msize decodes to it, per enumerated Msize, all mu and all '
                        'errors symbolic), lweSymDecrypt = approxPhase(lwePhase) wiring, gate encode/decode wiring, encryption structure (one centred gaussian '
                        'of the requested stdev, uniform mask, variance annotation) for every n; the pairing phase(encrypt(m)) = m + e for any integer key is a '
-                       'bounded stand-in in n. TLWE / TGSW decryption is not claimed.',
+                       'bounded stand-in in n. TLWE and TGSW: the wiring of encryption, phase and decryption for every N with the ring products as monitors '
+                       '(their numerical content is assumed).',
         'assumptions': STD_ASSUME + [
-            'pairing of the encryption loop and the phase loop (sum a_i*s_i): bounded stand-in, n in {1,2,4,8}(..32), all coefficient / key / error values symbolic (z3)',
-            'TLWE: wiring of tLweSymEncrypt(T) / tLwePhase / tLweApproxPhase proved with the ring products as monitors (ASSUMED: torusPolynomialAddMulR/SubMulR equal the exact negacyclic multiply-accumulate); tLweSymDecrypt / tLweSymDecryptT wiring proved likewise; TGSW decryption (tGswSymDecrypt) is not under contract',
+            'pairing of the encryption loop and the phase loop (sum a_i*s_i): bounded stand-in, quick: n in 1..9 and 11, thorough: 1..17, 23, 31, 32; all coefficient / key / error values symbolic (z3)',
+            'TLWE: wiring of tLweSymEncrypt(T) / tLwePhase / tLweApproxPhase proved with the ring products as monitors (ASSUMED: torusPolynomialAddMulR/SubMulR equal the exact negacyclic multiply-accumulate); tLweSymDecrypt / tLweSymDecryptT wiring proved likewise; TGSW: tGswSymEncrypt / tGswEncryptB wrappers and tGswSymDecrypt (all N; indicator decomposed once, phases of the last block, digit i with row i, rounding with the Msize given) with the decomposition, tLwePhase and the ring product as monitors',
             'the samplers are declared-only draws (assumed contract of libstdc++); the gaussian error is an arbitrary finite double, its size is not bounded by alpha here',
             'Msize enumerated; noise bound "Msize*alpha <= 1/20" enters only as the decoding radius |e| < 1/(2 Msize) - 2 units',
         ],
